@@ -52,7 +52,14 @@ func genC02(seed uint64, r *rng.Rand) *Plan {
 				ops = append(ops, b)
 				continue
 			}
-			ops = append(ops, g.SingleOp(ts.Name, pool[g.R.Intn(len(pool))], kinds))
+			o := g.SingleOp(ts.Name, pool[g.R.Intn(len(pool))], kinds)
+			if g.R.Chance(0.04) {
+				// a call that cannot be marshalled (nil row): it fails before anything
+				// is written; whatever state that failure leaves behind (pooled
+				// headers, multis) must not mix up later callers
+				o = Op{Kind: "get", Table: ts.Name, Key: nil, Nonce: g.Nonce(), SkipBatch: g.R.Chance(0.6)}
+			}
+			ops = append(ops, o)
 		}
 		p.Tasks = append(p.Tasks, Task{Ops: ops})
 	}
